@@ -659,11 +659,15 @@ func main() {
 				ok = false
 			}
 			if k == 1 {
-				g0, f0 = runtime.NumGoroutine(), countFds()
+				g0, f0 = validatorGoroutines(), countFds()
 			}
 			if k == cycles-1 && k > 1 {
-				g1, f1 := runtime.NumGoroutine(), countFds()
-				if g1 > g0+3 || f1 > f0+6 {
+				// goroutines started by the validator or its storage/cache dependencies (the total
+				// number of goroutines in the harness process also contains HTTP connection
+				// goroutines of the origin and is only reported)
+				g1, f1 := validatorGoroutines(), countFds()
+				run.Set("total_goroutines_at_end_"+backend, runtime.NumGoroutine())
+				if g1 > g0 || f1 > f0+6 {
 					run.Violation("cycles.counts-grow."+backend, fmt.Sprintf("%s: goroutines %d -> %d, descriptors %d -> %d over %d cycles", desc, g0, g1, f0, f1, cycles), nil)
 					ok = false
 				}
@@ -725,6 +729,34 @@ func repoGoroutines(d time.Duration) []string {
 			return left
 		}
 		time.Sleep(50 * time.Millisecond)
+	}
+}
+
+// validatorGoroutines counts goroutines with a frame of the repository, goleveldb or cache2go.
+// goleveldb's mpoolDrain goroutine lingers for up to one second after DB.Close by design, so the
+// count is taken as the minimum seen while polling for up to 3 s.
+func validatorGoroutines() int {
+	best := -1
+	deadline := time.Now().Add(3 * time.Second)
+	for {
+		var buf strings.Builder
+		_ = pprof.Lookup("goroutine").WriteTo(&buf, 2)
+		n := 0
+		for _, g := range strings.Split(buf.String(), "\n\n") {
+			if strings.Contains(g, "main.validatorGoroutines") {
+				continue
+			}
+			if strings.Contains(g, "caddy-revocation-validator/") || strings.Contains(g, "syndtr/goleveldb") || strings.Contains(g, "muesli/cache2go") {
+				n++
+			}
+		}
+		if best < 0 || n < best {
+			best = n
+		}
+		if best == 0 || time.Now().After(deadline) {
+			return best
+		}
+		time.Sleep(150 * time.Millisecond)
 	}
 }
 
